@@ -461,7 +461,8 @@ class Shadow:
                 self.v("C01", "%s returned but the resource does not exist" % name)
             elif sh is MISSING or not strict_eq(after_file, sh):
                 prop = ("C01", "C03") + (("C04",) if (obj is not root or len(self.objs) > 1) else ())
-                if sh is not MISSING and after_file == sh:
+                if sh is not MISSING and (after_file == sh or name in ("dreset", "lreset")):
+                    # (reset: the accepted value IS the whole content - it is not what is stored)
                     prop = prop + ("C12",)
                 self.v(prop, "after %s%r backend holds %r, expected %r" % (name, tuple(plain_args), after_file, sh))
         elif is_mut and real_err is not None:
